@@ -17,8 +17,8 @@ def build_and_run(workdir, program_src, main_src, features=('derive',), profiles
     shutil.copy(os.path.join(expand.REPO, 'Cargo.lock'), os.path.join(workdir, 'Cargo.lock'))
     with open(os.path.join(workdir, 'src', 'main.rs'), 'w') as f:
         f.write('#![allow(dead_code, unused_imports, unused_variables, non_camel_case_types, deprecated, unreachable_patterns, non_snake_case)]\n'
-                '#[derive(Debug, Clone, Copy, PartialEq, Eq)] pub struct Tag(pub u8);\nimpl Default for Tag { fn default() -> Tag { Tag(7) } }\n'
-                'mod prog {\n' + program_src.replace('#[cfg(kani)]', '#[cfg(any())]') + '\n}\nuse prog::*;\n' + main_src + '\n')
+                + expand.FIXTURES +
+                'mod prog {\n' + program_src.replace('#[cfg(kani)]', '#[cfg(any())]').replace('use crate::{', 'use super::{') + '\n}\nuse prog::*;\n' + main_src + '\n')
     results = {}
     for prof in profiles:
         args = ['cargo', 'run', '--offline', '--quiet'] + (['--release'] if prof == 'release' else [])
